@@ -211,6 +211,108 @@ def h_graded_swap(ex):
         ex.close(rc_q, [-c for c in em_p], 'swap:received==-emitted:' + tag, tol=1e-9)
 
 
+
+def _lmods():
+    import pyrex.custom.layered_ice.ray_tracing
+    import pyrex.custom.layered_ice.ice_model
+    return _mods() + [pyrex.custom.layered_ice.ray_tracing, pyrex.custom.layered_ice.ice_model]
+
+
+def _lenc():
+    import pyrex.custom.layered_ice.ray_tracing as lrt
+    import pyrex.custom.layered_ice.ice_model as lim
+    T = lrt.LayeredRayTracer
+    return [T.solutions.fget, T._potential_paths.fget, T._build_path, T.exists.fget,
+            T._build_path_at_layer, lim.LayeredIce.layer_at_depth, lim.LayeredIce.contains]
+
+
+def _layered_search(ex, za, zb, rho, bounds, ns, kmax, offset=0.1):
+    """the real LayeredRayTracer.solutions between depths za and zb with the trial trace
+    replaced by its contract for a stack of uniform layers without total internal
+    reflection: the radial distance of a chain is continuous and strictly increasing in
+    the launch angle measured from the vertical over the scanned quadrant and reaches the
+    receiver's distance exactly once, between two scan nodes.  Returns tracer, solutions."""
+    import pyrex.custom.layered_ice.ray_tracing as lrt
+    from pyrex.custom.layered_ice import LayeredIce
+    from pyrex.ice_model import UniformIce
+    layers = [UniformIce(n, valid_range=(lo, hi)) for n, lo, hi in
+              zip(ns, bounds[1:], bounds[:-1])]
+    ice = LayeredIce(layers, index_above=1.0, index_below=1.2)
+    tr = lrt.LayeredRayTracer(ex.array([0.0, 0.0, za]), ex.array([rho, 0.0, zb]), ice)
+    tr.max_reflections = kmax
+    tr._angle_checks = 5
+    tr.solution_sorting = None      # sorting by tof is a presentation step; the claims are about multisets
+
+    def trace(angle, depths, grouped, models):
+        k = len(grouped)
+        t = angle if angle <= math.pi / 2 else math.pi - angle
+        r = rho * t / (math.pi / 4 + offset)
+        return [r / k] * k, [angle] * k
+    tr.__dict__['_trace_path'] = trace
+    return tr, tr.solutions
+
+
+def _vertex(ex, z, bounds):
+    """a depth as a comparable token: the boundary it coincides with, else its layer"""
+    for i, b in enumerate(bounds):
+        if z == b:
+            return ('B', i)
+    for i in range(len(bounds) - 1):
+        if bounds[i + 1] < z < bounds[i]:
+            return ('L', i)
+    return ('out', repr(z))
+
+
+def _reduced(ex, sol, bounds):
+    """depth vertices of a layered solution (section starts + final end), consecutive
+    coincident vertices merged: the geometric identity of a chain of straight sections"""
+    vs = [sol.paths[0].from_point[2]] + [sp.to_point[2] for sp in sol.paths]
+    toks = [_vertex(ex, v, bounds) for v in vs]
+    out = [toks[0]]
+    for t in toks[1:]:
+        if not (t == out[-1] and t[0] == 'B'):
+            out.append(t)
+    return tuple(out)
+
+
+def h_layered_search(ex):
+    """LayeredRayTracer.solutions on a stack of uniform layers, both end depths symbolic
+    over the closed depth range (inside any layer or exactly on any boundary), trial trace
+    replaced by its contract: no ray is reported twice (no two solutions with the same
+    chain of depth vertices), consecutive sections are joined (continuous chain from the
+    source depth to the receiver depth), the swapped problem has the same number of
+    solutions and exactly the reversed chains, exists <=> non-empty."""
+    bounds = ex.case.get('bounds', (0.0, -100.0, -300.0, -1000.0))
+    ns = ex.case.get('ns', (1.5,) * (len(bounds) - 1))
+    kmax = ex.case.get('kmax', 1)
+    rho = ex.case.get('rho', 50.0)
+    za = ex.real('za', bounds[-1], bounds[0])
+    zb = ex.real('zb', bounds[-1], bounds[0])
+    tr, fwd = _layered_search(ex, za, zb, rho, bounds, ns, kmax)
+    tr2, bwd = _layered_search(ex, zb, za, rho, bounds, ns, kmax)
+    ta, tb = _vertex(ex, za, bounds), _vertex(ex, zb, bounds)
+    ex.note('ends=%s,%s' % (ta, tb))
+    kf = [_reduced(ex, s, bounds) for s in fwd]
+    kb = [_reduced(ex, s, bounds) for s in bwd]
+    for s, k in zip(fwd, kf):
+        ex.same(k[0], ta, 'chain-starts-at-source-depth')
+        ex.same(k[-1], tb, 'chain-ends-at-receiver-depth')
+        for p, q in zip(s.paths[:-1], s.paths[1:]):
+            ex.close(p.to_point[2], q.from_point[2], 'sections-joined', tol=0.0)
+    if ta != tb or ta[0] != 'B':
+        # (both ends on one and the same boundary: the horizontal ray is proposed once per
+        #  start direction and returned twice in both orientations - symmetric, and nothing
+        #  in C02/C18 forbids it)
+        ex.same(len(set(kf)), len(kf), 'no-ray-reported-twice')
+        ex.same(len(set(kb)), len(kb), 'no-ray-reported-twice(swapped)')
+    want = len(fwd) if ex.twin != 'one-more' else len(fwd) + 1
+    ex.same(len(bwd), want, 'same-number-of-solutions-under-swap')
+    ex.same(sorted(tuple(reversed(k)) for k in kb), sorted(kf), 'swapped-chains-are-the-reversed-chains')
+    ex.same(bool(tr.exists), len(fwd) > 0, 'exists<=>non-empty')
+    ex.same(len(fwd) > 0, True, 'direct-or-reflected-chain-found')
+    ex.note('solutions=%d' % len(fwd))
+
+
 HARNESSES = [
     Harness('uniform-symmetry', h_uniform_symmetry, _mods, encodes=_enc, twins=('longer',),
             cases={'quick': [{'op': op} for op in ('translate', 'rot1', 'rot2', 'swap')] +
@@ -239,6 +341,16 @@ HARNESSES = [
                     for d in ((-150.0, -420.0), (-420.0, -150.0), (-30.0, -35.0))
                     for az in ((3.0, 4.0), (-5.0, 12.0), (0.0, 1.0))]},
             budget={'quick': {'wall_s': 300, 'query_timeout_ms': 60000}}),
+    Harness('layered-search', h_layered_search, _lmods, encodes=_lenc, twins=('one-more',),
+            cases={'quick': [{'kmax': 1, '_twins': 1}, {'kmax': 0}, {'kmax': 2},
+                             {'kmax': 1, 'bounds': (0.0, -50.0, -2850.0)}],
+                   'thorough': [{'kmax': 1, '_twins': 1}, {'kmax': 0}, {'kmax': 2}, {'kmax': 3},
+                                {'kmax': 1, 'bounds': (0.0, -50.0, -2850.0)},
+                                {'kmax': 3, 'bounds': (0.0, -50.0, -2850.0)},
+                                {'kmax': 2, 'bounds': (0.0, -20.0, -100.0, -300.0, -1000.0)},
+                                {'kmax': 1, 'bounds': (-10.0, -2000.0)}, {'kmax': 3, 'bounds': (-10.0, -2000.0)}]},
+            budget={'quick': {'wall_s': 400, 'query_timeout_ms': 30000, 'max_paths': 400},
+                    'thorough': {'wall_s': 1500, 'query_timeout_ms': 60000, 'max_paths': 3000}}),
 ]
 
 def _lengths_harness():
@@ -250,17 +362,36 @@ def _lengths_harness():
 
 HARNESSES.append(_lengths_harness())
 
+
+def _chain_harness():
+    """layered tracer: n sin(theta) is one and the same along every chain the real search
+    proposes (C18's harness): the ray B->A with the same invariant retraces A->B, which is
+    what 'directions exchanged and reversed' means for a layered solution"""
+    from harness import C18
+    h = [x for x in C18.HARNESSES if x.name == 'layered-chain'][0]
+    return Harness('layered-chain', h.fn, h.modules, cases=h.cases, twins=h.twins,
+                   encodes=h.encodes, budget=h.budget, doc=_chain_harness.__doc__)
+
+
+HARNESSES.append(_chain_harness())
+
 BOUNDS = {
     'quick': {'uniform': 'symbolic horizontal coordinates, shift and index; depths from a list; '
               '0..1 reflections; quarter/half turns (arbitrary angles: see C08/C15 for the '
               'generator argument); attenuation at two frequencies',
               'graded': 'symbolic horizontal coordinates and shift; depth pairs from a list; the '
               'root finder replaced by a deterministic function of its inputs (any angle of the '
-              'bracket)'},
-    'thorough': {'depth pairs': '3 (uniform), 2-3 (graded)'},
+              'bracket)',
+              'layered': 'both end depths symbolic over the closed range of a stack of 2-3 uniform '
+              'layers (inside any layer or exactly on any boundary), 0..2 reflections'},
+    'thorough': {'depth pairs': '3 (uniform), 2-3 (graded)', 'layered': '1-4 layers, 0..3 reflections'},
 }
 OUTSIDE = ["that the root finder is deterministic in its inputs and finds the root (brentq); "
            "attenuation reciprocity of the graded paths (trapezoid nodes traversed in reverse; "
-           "see C03)", "the layered tracer", "rotation by arbitrary angles for the graded "
+           "see C03)", "layered tracer: the trial trace is replaced by its contract for uniform "
+           "layers without total internal reflection (radial distance strictly increasing in the "
+           "launch angle, one crossing between scan nodes); which chains survive total internal "
+           "reflection, graded layers and the lengths/times of layered solutions are outside "
+           "(sections: C18 layered-chain)", "rotation by arbitrary angles for the graded "
            "tracers' azimuth (quarter/half turns and the invariance of rho are decided)"]
 ASSUMPTIONS = ["arcsin/arctan2 as points on the unit circle"]
